@@ -20,7 +20,7 @@ func init() {
 			"oracle: the operation in progress returns exactly that error, every later call returns a non-nil error and makes no destination call, no panic, guard zones intact, Reset revives the Writer; " +
 			"non-trivial = the injected failure was reached (k <= N(S)); distinct = distinct (setting, S, k, short-count, continuation)",
 		Assumptions: []string{"the destination reports failure through its error result (a short count with a nil error is outside the statement)"},
-		Quick:       TierSpec{MaxDev: -1, Shards: 4, ShardDepth: 3, BudgetS: 150},
+		Quick:       TierSpec{MaxDev: -1, Shards: 4, ShardDepth: 3, BudgetS: 600},
 		Thorough:    TierSpec{MaxDev: -1, Shards: 8, ShardDepth: 3, BudgetS: 1700},
 		Harness:     c14Harness,
 	})
